@@ -1489,6 +1489,10 @@ class Evaluator:
                     if fty_.startswith(("core::option::Option<", "Option<")):
                         base_.f[r_["name"]] = V("None")
                         return UNIT
+        if n["name"] == "clone_from" and len(n["args"]) == 1 and "clone_from" in fn:
+            # `place.clone_from(&source)` is `place = source.clone()`
+            self.assign(n["recv"], self.ev(n["args"][0], env, depth), env, depth)
+            return UNIT
         recv = self.ev(n["recv"], env, depth)
         args = [recv] + [self.ev(a, env, depth) for a in n["args"]]
         return self.call_fn(fn, args, depth, n, method=n["name"])
